@@ -85,6 +85,13 @@ def execSimpleC (c : CState) (fields : List String) (here : Option (List Char)) 
       execReadC c (parseReadArgs args false 10).2.1 (parseReadArgs args false 10).1
         (parseReadArgs args false 10).2.2
     | .cat => execCatC c here
+    | .closein =>
+      if c.st.shared then
+        let all := drainC [] c.src
+        { st := { c.st with pos := c.st.pos + all.length, status := 0, inClosed := true,
+                            hitEof := c.st.hitEof || c.st.shared },
+          src := [] }
+      else { c with st := execClose c.st }
     | u => { c with st := execUtil c.st u name args here }
 
 /-- one step: a simple command may read the descriptor; everything else is the flat machine's step -/
